@@ -229,7 +229,7 @@ def cmdGen : P String := do
   | none => if !modelCrash then return s!"DIFF C07 harness-driver-desync {feats}"
   | some s => if modelCrash || s != modelText then return s!"DIFF C07 harness-driver-desync {feats}"
   if mo.isSome != mf.isSome then return s!"DIFF C07 view-and-text-disagree-on-crash {feats}"
-  if !twice then return s!"DIFF C07 nondeterministic-output {feats}"
+  if !twice then return s!"DIFF C07 second-run-over-an-existing-output-file-gives-other-bytes {feats}"
   -- model against the real generator
   match mf with
   | none =>
